@@ -74,7 +74,7 @@ def generic(pid, corrs, extra=None, thorough_extra=None, skel=None, pregen=None,
         if ys and broke and not concrete:
             for permille in (30, 150):
                 for c in ys:
-                    if c.get("race"):
+                    if c.get("race") or c.get("evinst"):
                         continue
                     c2 = dict(c, name=(c.get("name") or c["harness"]) + "-yield%d" % permille, yielding=permille, spec_only=True)
                     before = len(res.violations)
@@ -98,7 +98,7 @@ def generic(pid, corrs, extra=None, thorough_extra=None, skel=None, pregen=None,
             # unchanged tree too; any spec rejection there would be a genuine counter-example)
             ys = yield_search if yield_search is not None else (corrs if skel else [])
             for c in ys:
-                if not c.get("race"):
+                if not c.get("race") and not c.get("evinst"):
                     c2 = dict(c, name=(c.get("name") or c["harness"]) + "-yield60", yielding=60, spec_only=True)
                     steps.TraceCorr(work, res, pid, tier="quick", **c2).run(proofs_ok=True)
     run.pregen = do_pregen
